@@ -708,11 +708,27 @@ func c19Faults(g *Gen, a []byte, visit func(kind int, name string, b []byte)) {
 	}
 }
 
+// one counter slot per entry point; the names are known once the target table exists
+var c19tgtCtr = func() (a [192]int) {
+	for i := range a {
+		a[i] = core.RegCounter(fmt.Sprintf("~c19.target.%03d", i))
+	}
+	return
+}()
+
 func runC19(e *Env, r *core.Run) {
 	if c19T == nil {
 		c19T = c19Targets()
+		if len(c19T) > len(c19tgtCtr) {
+			panic("harness: more C19 targets than counter slots")
+		}
+		for i, tg := range c19T {
+			core.RenameCounter(c19tgtCtr[i], "c19.runs_on."+tg.name)
+		}
 	}
-	tg := c19T[int(r.Index%uint64(len(c19T)))]
+	ti := int(r.Index % uint64(len(c19T)))
+	tg := c19T[ti]
+	r.Count(c19tgtCtr[ti])
 	g := &Gen{T: r.T}
 	c := &c19Ctx{g: g, aux: map[string][]byte{}}
 	prevCtx := &c19Ctx{g: g, aux: map[string][]byte{}}
